@@ -148,7 +148,7 @@ class eap(packet_base):
     def __str__(self):
         s = '[EAP %s id=%d' % (eap.code_name(self.code), self.id)
         if hasattr(self, 'type'):
-            s += ' type=%s' % (eap.type_names[self.type],)
+            s += ' type=%s' % (eap.type_name(self.type),)
         return s + "]"
 
     def parse(self, raw):
